@@ -9,6 +9,23 @@
    STRT/STOP/STEP are printed with the format of the index column, col_fmt o 0 = column_fmt[0]
    or fmt.
 
+   Domain.  The index is las.index = las.curves[0].data (index_of; [] without a curve).
+     no curve     index_initial set (read, then every curve deleted): lasio evaluates las.index
+                  unguarded and raises IndexError; the model raises too (C16_no_curve_raises), so
+                  no theorem about `write o m = WOk ..` speaks of such an object, and the
+                  C16_need_changed / C16_need_stop_differs_* statements carry "at least one
+                  curve".  index_initial None (LASFile() from scratch): the IndexError is caught
+                  in update_start_stop_step and STRT/STOP/STEP are left at None, like an empty
+                  index; this is inside every theorem.
+     NaN          a NaN first / last cell is printed "nan" (fmt_index_cell); STEP is "nan" as soon
+                  as index[0] or index[1] is NaN and the STRT and STOP texts differ (step_text;
+                  C16_truth_step_nan), which is the first increment to format precision.
+                  C16_truth(_texts) speak of a numeric first and last sample.
+     text index   NOT modelled: the index column holds numbers or NaN.  With a text index lasio
+                  raises TypeError in update_start_stop_step (`fmt % text`) whenever the refresh
+                  is needed, or skips the refresh when STOP holds the text of the last cell; the
+                  model does neither (a raising write is outside the statement of C16).
+
    Proved at full strength
      frame        C16_data_frame      data, index_initial, ~Other, custom sections unchanged
                   C16_curves_frame    curves: number, order, mnemonics (original and session),
@@ -143,26 +160,28 @@ Theorem C16_idempotent_nowrap : forall o m text m',
 Proof. exact (write_idempotent_nowrap fmtv fmt_diff fmt_pi fstr fzero numeq). Qed.
 
 (* ---- truthfulness ---- *)
-(* need_of: writer.py's `index_changed or stop_is_different` *)
+(* need_of: writer.py's `index_changed or stop_is_different`.  With index_initial set the
+   decision reads las.index: the hypothesis "at least one curve" of the next three theorems
+   excludes exactly the case where that raises IndexError (C16_no_curve_raises). *)
 Theorem C16_need_created : forall m, m_index_initial m = None -> need_of numeq m = Some true.
 Proof. exact (need_created numeq). Qed.
 
 Theorem C16_need_changed : forall m iv lastc rr svv,
-  m_index_initial m = Some iv -> rev iv = lastc :: rr ->
+  m_index_initial m = Some iv -> s_items (l_curves (m_las m)) <> [] -> rev iv = lastc :: rr ->
   item_value_by (s_transforms (l_well (m_las m))) (s2l "STOP") (s_items (l_well (m_las m))) = Some svv ->
   cells_equal numeq iv (index_of (m_las m)) = false ->
   need_of numeq m = Some true.
 Proof. exact (need_changed numeq). Qed.
 
 Theorem C16_need_stop_differs_int : forall m iv t rr z,
-  m_index_initial m = Some iv -> rev iv = CNum t :: rr ->
+  m_index_initial m = Some iv -> s_items (l_curves (m_las m)) <> [] -> rev iv = CNum t :: rr ->
   item_value_by (s_transforms (l_well (m_las m))) (s2l "STOP") (s_items (l_well (m_las m))) = Some (VInt z) ->
   numeq t (z_to_str z) = false ->
   need_of numeq m = Some true.
 Proof. exact (need_stop_differs_int numeq). Qed.
 
 Theorem C16_need_stop_differs_float : forall m iv t rr x,
-  m_index_initial m = Some iv -> rev iv = CNum t :: rr ->
+  m_index_initial m = Some iv -> s_items (l_curves (m_las m)) <> [] -> rev iv = CNum t :: rr ->
   item_value_by (s_transforms (l_well (m_las m))) (s2l "STOP") (s_items (l_well (m_las m))) = Some (VFloat x) ->
   numeq t x = false ->
   need_of numeq m = Some true.
@@ -181,9 +200,10 @@ Theorem C16_units_aligned : forall o m text m',
 Proof. exact (write_units_aligned fmtv fmt_diff fmt_pi fstr fzero numeq). Qed.
 
 (* first sample a, last sample z, f = col_fmt o 0: STRT = f % a, STOP = f % z,
-   STEP = step_of f index = f % (second - first) when there are two numeric samples and the
-   STRT and STOP texts differ, else None; all three then pass through standardize (which only
-   matters for an empty text / None: -> 0 with a unit, "" without) *)
+   STEP = step_of f index = f % (second - first) when there are two samples and the STRT and
+   STOP texts differ ("nan" when the second sample is NaN), else None; all three then pass
+   through standardize (which only matters for an empty text / None: -> 0 with a unit, ""
+   without) *)
 Theorem C16_truth : forall o m text m' a rest z rr,
   write o m = WOk text m' ->
   need_of numeq m = Some true ->
@@ -217,6 +237,21 @@ Theorem C16_truth_texts : forall o m text m' a rest z rr,
                    str_eqb (fmtv (col_fmt o 0%nat) a) (fmtv (col_fmt o 0%nat) z) = true) ->
        i_value e = standardize fzero VNone (aligned_unit (m_las m))).
 Proof. exact (write_truth_texts fmtv fmt_diff fmt_pi fstr fzero numeq). Qed.
+
+(* a NaN second sample: the first increment is NaN and STEP says so *)
+Theorem C16_truth_step_nan : forall o m text m' a rest z rr,
+  write o m = WOk text m' ->
+  need_of numeq m = Some true ->
+  index_of (m_las m) = CNum a :: CNaN :: rest -> rev (index_of (m_las m)) = CNum z :: rr ->
+  str_eqb (fmtv (col_fmt o 0%nat) a) (fmtv (col_fmt o 0%nat) z) = false ->
+  exists e, sect_find (s_transforms (l_well (m_las m))) (s2l "STEP") (s_items (l_well (m_las m'))) = Some e /\
+            i_value e = VStr (s2l "nan").
+Proof. exact (write_truth_step_nan fmtv fmt_diff fmt_pi fstr fzero numeq). Qed.
+
+(* read, every curve deleted, write: lasio raises IndexError (las.index), so does the model *)
+Theorem C16_no_curve_raises : forall o m iv,
+  m_index_initial m = Some iv -> s_items (l_curves (m_las m)) = [] -> exists e, write o m = WErr e.
+Proof. exact (write_no_curve_raises fmtv fmt_diff fmt_pi fstr fzero numeq). Qed.
 
 (* ---- the same facts under the names listed in harness/props/c16.py ---- *)
 Theorem C16_header_frame : forall o m text m',
@@ -318,6 +353,28 @@ Example C16_idempotent_refuted_dup_wrap :
   end.
 Proof. vm_compute. repeat split; try reflexivity. discriminate. Qed.
 
+(* index [1.0; nan; 3.0]: STRT 1.0, STOP 3.0, STEP "nan" *)
+Definition ex_las_nan : las :=
+  mklas (ex_version false) ex_well ex_curves ex_params [] []
+        [[CNum (s2l "1.0"); CNaN; CNum (s2l "3.0")]; [CNum (s2l "5"); CNaN; CNum (s2l "7")]] false.
+Example C16_ex_step_nan :
+  match ex_write (ex_o None) (mkmlas ex_las_nan (Some ex_idx)) with
+  | WOk _ m' => map i_value (firstn 3 (s_items (l_well (m_las m')))) = [VStr (s2l "1.0"); VStr (s2l "3.0"); VStr (s2l "nan")]
+  | WErr _ => False
+  end.
+Proof. vm_compute. reflexivity. Qed.
+
+(* no curve: raises when index_initial is set, STRT/STOP/STEP None -> 0 (unit M) when it is not *)
+Definition ex_las_nocurve : las :=
+  mklas (ex_version false) ex_well (mksect [] false) ex_params [] [] [] false.
+Example C16_ex_no_curve :
+  (exists e, ex_write (ex_o None) (mkmlas ex_las_nocurve (Some ex_idx)) = WErr e) /\
+  match ex_write (ex_o None) (mkmlas ex_las_nocurve None) with
+  | WOk _ m' => map i_value (firstn 3 (s_items (l_well (m_las m')))) = [VInt 0; VInt 0; VInt 0]
+  | WErr _ => False
+  end.
+Proof. split; [eexists|]; vm_compute; reflexivity. Qed.
+
 Print Assumptions C16_data_frame.
 Print Assumptions C16_curves_frame.
 Print Assumptions C16_params_frame.
@@ -337,6 +394,8 @@ Print Assumptions C16_need_stop_differs_float.
 Print Assumptions C16_units_aligned.
 Print Assumptions C16_truth.
 Print Assumptions C16_truth_texts.
+Print Assumptions C16_truth_step_nan.
+Print Assumptions C16_no_curve_raises.
 Print Assumptions C16_header_frame.
 Print Assumptions C16_version_in_memory.
 Print Assumptions C16_idempotent_refuted_dup_wrap.
